@@ -13,6 +13,7 @@ import re
 import shutil
 
 import core
+import workflow
 import projmodel
 from props import c06
 
@@ -273,14 +274,16 @@ def run(ctx: core.Ctx) -> int:
         if r.get("event"):
             r["event"] = {"label": r["event"]["label"], "doc": r["event"]["doc"], "crash": r["event"]["crash"],
                           "concluded": r["event"]["concluded"]}
+    # Workflow.tla: spdx interleaved with the modifying commands; its File sections must be what lint attributes at that point
+    wf = workflow.stage(ctx, ("C18.", "crash"))
     return ctx.finish(
-        evaluations=len(events),
+        evaluations=len(events) + len(wf["events"]),
         distinct_nontrivial=len({(e["label"], e["concluded"]) for e in events}),
         rule="SpdxGen: every expression tree of depth <= 1 over 4 identifiers + one WITH symbol in one file with its "
              "AND/OR dual in another (complete), TLC-sampled depth-2 trees and two-expression files, identical files with "
              "equal base names, a LicenseRef-; plus Lint.tla and Inventory.tla project states; options: with/without "
              "--add-license-concluded, stdout / -o, serial / pool",
-        mc_violations=[{"clause": f"model:{v}", "kf": "", "detail": mc["out"][-2000:]} for v in mc["violated"]])
+        mc_violations=[{"clause": f"model:{v}", "kf": "", "detail": mc["out"][-2000:]} for v in mc["violated"]] + wf["mc_violations"])
 
 
 def replay(ctx: core.Ctx, path: str) -> int:
